@@ -1295,4 +1295,269 @@ theorem groupMod_repeatable : ∀ v, Repeatable GroupMod.lenM GroupMod.marshalM 
     · exact absurd hE (by simp)
 
 
+/-! ### (a) messages and multipart bodies that store nothing -/
+
+theorem phyPort_pure (v : V) : Pure2 PhyPort.lenM PhyPort.marshalM v := ⟨PhyPort.lenM_pure v, PhyPort.marshalM_pure v⟩
+theorem descStats_pure (v : V) : Pure2 DescStats.lenM DescStats.marshalM v :=
+  ⟨fun _ _ h => (same_ok _ _ _ _ h).2, DescStats.marshalM_pure v⟩
+theorem aggregateStats_pure (v : V) : Pure2 AggregateStats.lenM AggregateStats.marshalM v :=
+  ⟨fun _ _ h => (same_ok _ _ _ _ h).2, AggregateStats.marshalM_pure v⟩
+theorem tableStats_pure (v : V) : Pure2 TableStats.lenM TableStats.marshalM v :=
+  ⟨fun _ _ h => (same_ok _ _ _ _ h).2, TableStats.marshalM_pure v⟩
+theorem portStatsRequest_pure (v : V) : Pure2 PortStatsRequest.lenM PortStatsRequest.marshalM v :=
+  ⟨fun _ _ h => (same_ok _ _ _ _ h).2, PortStatsRequest.marshalM_pure v⟩
+theorem queueStatsRequest_pure (v : V) : Pure2 QueueStatsRequest.lenM QueueStatsRequest.marshalM v :=
+  ⟨fun _ _ h => (same_ok _ _ _ _ h).2, QueueStatsRequest.marshalM_pure v⟩
+theorem queueStats_pure (v : V) : Pure2 QueueStats.lenM QueueStats.marshalM v :=
+  ⟨fun _ _ h => (same_ok _ _ _ _ h).2, QueueStats.marshalM_pure v⟩
+theorem controllerID_pure (v : V) : Pure2 ControllerID.lenM ControllerID.marshalM v :=
+  ⟨fun _ _ h => (same_ok _ _ _ _ h).2, ControllerID.marshalM_pure v⟩
+theorem tlvTableMap_pure (v : V) : Pure2 TLVTableMap.lenM TLVTableMap.marshalM v :=
+  ⟨fun _ _ h => (same_ok _ _ _ _ h).2, TLVTableMap.marshalM_pure v⟩
+theorem bundleControl_pure (v : V) : Pure2 BundleControl.lenM BundleControl.marshalM v :=
+  ⟨fun _ _ h => (same_ok _ _ _ _ h).2, BundleControl.marshalM_pure v⟩
+
+theorem portStats_pure (v : V) : Pure2 PortStats.lenM PortStats.marshalM v := by
+  refine ⟨fun _ _ h => (same_ok _ _ _ _ h).2, ?_⟩
+  intro bs v2 h
+  unfold PortStats.marshalM at h
+  split at h
+  · split at h
+    · exact absurd h (by simp)
+    · obtain ⟨_, _, h'⟩ := bind_ok_inv _ _ _ h
+      exact (same_ok _ _ _ _ h').2
+  · exact absurd h (by simp)
+
+theorem uBuffer_pure (v : V) : Pure2 UBuffer.lenM UBuffer.marshalM v := by
+  refine ⟨?_, UBuffer.marshalM_pure v⟩
+  intro l v1 h
+  unfold UBuffer.lenM at h
+  obtain ⟨_, _, h'⟩ := bind_ok_inv _ _ _ h
+  exact (same_ok _ _ _ _ h').2
+
+/-- FlowStatsRequest / AggregateStatsRequest -/
+theorem statsReq_pure (k : String) (v : V) : Pure2 (StatsReq.lenM k) (StatsReq.marshalM k) v := by
+  constructor
+  · intro l v1 h
+    unfold StatsReq.lenM at h
+    split at h
+    · split at h
+      · exact absurd h (by simp)
+      · rename_i hk
+        have hk' : _ = k := Decidable.of_not_not hk
+        subst hk'
+        obtain ⟨⟨lm, m'⟩, hlm, h2⟩ := bind_ok_inv _ _ _ h
+        have em := Match.lenM_pure _ _ _ hlm
+        subst em
+        cases h2; rfl
+    · exact absurd h (by simp)
+  · intro bs v2 h
+    unfold StatsReq.marshalM at h
+    split at h
+    · split at h
+      · exact absurd h (by simp)
+      · rename_i hk
+        have hk' : _ = k := Decidable.of_not_not hk
+        subst hk'
+        obtain ⟨fb, _, h2⟩ := bind_ok_inv _ _ _ h
+        obtain ⟨⟨mb, m'⟩, hmm, h3⟩ := bind_ok_inv _ _ _ h2
+        have em := Match.marshalM_pure _ _ _ hmm
+        subst em
+        cases h3; rfl
+    · exact absurd h (by simp)
+
+/-- ErrorMsg (its encoder does not touch Header.Length) -/
+theorem errorMsg_pure (v : V) : Pure2 ErrorMsg.lenM ErrorMsg.marshalM v := by
+  have hl : LenPure ErrorMsg.lenM v := by
+    intro l v1 h
+    unfold ErrorMsg.lenM at h
+    split at h
+    · obtain ⟨⟨lb, d'⟩, hd, h2⟩ := bind_ok_inv _ _ _ h
+      have e := (uBuffer_pure _).1 _ _ hd
+      subst e
+      cases h2; rfl
+    · exact absurd h (by simp)
+  refine ⟨hl, ?_⟩
+  intro bs v2 h
+  unfold ErrorMsg.marshalM at h
+  obtain ⟨⟨l, v'⟩, hlen, h2⟩ := bind_ok_inv _ _ _ h
+  have e := hl _ _ hlen
+  subst e
+  simp only at h2
+  split at h2
+  · obtain ⟨hb, _, h3⟩ := bind_ok_inv _ _ _ h2
+    obtain ⟨⟨db, d'⟩, hd, h4⟩ := bind_ok_inv _ _ _ h3
+    obtain ⟨b, _, h5⟩ := bind_ok_inv _ _ _ h4
+    have e2 := (uBuffer_pure _).2 _ _ hd
+    subst e2
+    cases h5; rfl
+  · exact absurd h2 (by simp)
+
+/-- FlowRemoved (its encoder does not touch Header.Length) -/
+theorem flowRemoved_pure (v : V) : Pure2 FlowRemoved.lenM FlowRemoved.marshalM v := by
+  have hl : LenPure FlowRemoved.lenM v := by
+    intro l v1 h
+    unfold FlowRemoved.lenM at h
+    split at h
+    · obtain ⟨⟨lm, m'⟩, hm, h2⟩ := bind_ok_inv _ _ _ h
+      have e := Match.lenM_pure _ _ _ hm
+      subst e
+      cases h2; rfl
+    · exact absurd h (by simp)
+  refine ⟨hl, ?_⟩
+  intro bs v2 h
+  unfold FlowRemoved.marshalM at h
+  obtain ⟨⟨l, v'⟩, hlen, h2⟩ := bind_ok_inv _ _ _ h
+  have e := hl _ _ hlen
+  subst e
+  simp only at h2
+  split at h2
+  · obtain ⟨hb, _, h3⟩ := bind_ok_inv _ _ _ h2
+    obtain ⟨_, _, h4⟩ := bind_ok_inv _ _ _ h3
+    obtain ⟨⟨mb, m'⟩, hmm, h5⟩ := bind_ok_inv _ _ _ h4
+    have e2 := Match.marshalM_pure _ _ _ hmm
+    subst e2
+    obtain ⟨⟨lm, m''⟩, hml, h6⟩ := bind_ok_inv _ _ _ h5
+    have e3 := Match.lenM_pure _ _ _ hml
+    subst e3
+    obtain ⟨b, _, h7⟩ := bind_ok_inv _ _ _ h6
+    cases h7; rfl
+  · exact absurd h2 (by simp)
+
+
+/-! ### (b) messages that store `Header.Length = Len()` (or their own Length) when encoded -/
+
+/-- SwitchConfig (SetConfig / GetConfigReply) -/
+theorem switchConfig_repeatable : ∀ v, Repeatable SwitchConfig.lenM SwitchConfig.marshalM v := by
+  apply repeatable_of_lenThen SwitchConfig.lenM
+    (fun l0 v => do
+      let (l1, v) ← SwitchConfig.lenM v
+      match v with
+      | .obj "SwitchConfig" [h, .num fl, .num ms] =>
+        let h := Header.setLength l1 h
+        let hb ← Header.bytes h
+        let bs ← fill l0.toNat [pCopy hb, pU16 fl, pU16 ms]
+        .ok (bs, .obj "SwitchConfig" [h, .num fl, .num ms])
+      | _ => .panic)
+  · intro v; rfl
+  · intro v l v1 h; obtain ⟨_, e⟩ := same_ok _ _ _ _ h; subst e; exact h
+  · intro l v1 bs v2 hl hE
+    obtain ⟨e1, _⟩ := same_ok _ _ _ _ hl
+    subst e1
+    simp only [SwitchConfig.lenM, same, Res.bind_ok] at hE
+    split at hE
+    · obtain ⟨hb, hhb, h3⟩ := bind_ok_inv _ _ _ hE
+      obtain ⟨b, hf, h4⟩ := bind_ok_inv _ _ _ h3
+      cases h4
+      refine ⟨rfl, ?_⟩
+      simp only [SwitchConfig.lenM, same, Res.bind_ok, Header.setLength_idem, hhb, hf]
+    · exact absurd hE (by simp)
+
+/-- PortMod -/
+theorem portMod_repeatable : ∀ v, Repeatable PortMod.lenM PortMod.marshalM v := by
+  apply repeatable_of_lenThen PortMod.lenM
+    (fun l v => match v with
+      | .obj "PortMod" [h, .num no, .bytes pad, .bytes hw, .bytes pad2, .num cfg, .num mask, .num adv, .bytes pad3] => do
+        let h := Header.setLength l h
+        let hb ← Header.bytes h
+        let b ← fill 32 [pU32 no, pCopyAdv pad 4, pCopyAdv hw Gen.openflow13.ETH_ALEN, pCopyAdv pad2 2, pU32 cfg, pU32 mask,
+          pU32 adv, pCopyAdv pad3 4]
+        .ok (hb ++ b, .obj "PortMod" [h, .num no, .bytes pad, .bytes hw, .bytes pad2, .num cfg, .num mask, .num adv, .bytes pad3])
+      | _ => .panic)
+  · intro v; rfl
+  · intro v l v1 h; obtain ⟨_, e⟩ := same_ok _ _ _ _ h; subst e; exact h
+  · intro l v1 bs v2 hl hE
+    obtain ⟨e1, _⟩ := same_ok _ _ _ _ hl
+    subst e1
+    split at hE
+    · obtain ⟨hb, hhb, h3⟩ := bind_ok_inv _ _ _ hE
+      obtain ⟨b, hf, h4⟩ := bind_ok_inv _ _ _ h3
+      cases h4
+      refine ⟨rfl, ?_⟩
+      simp only [Header.setLength_idem, hhb, hf, Res.bind_ok]
+    · exact absurd hE (by simp)
+
+/-- PortStatus -/
+theorem portStatus_repeatable : ∀ v, Repeatable PortStatus.lenM PortStatus.marshalM v := by
+  have hlp : ∀ v, LenPure PortStatus.lenM v := by
+    intro v l v1 h
+    unfold PortStatus.lenM at h
+    split at h
+    · obtain ⟨⟨lp, d'⟩, hd, h2⟩ := bind_ok_inv _ _ _ h
+      have e := PhyPort.lenM_pure _ _ _ hd
+      subst e
+      cases h2; rfl
+    · exact absurd h (by simp)
+  apply repeatable_of_lenThen PortStatus.lenM
+    (fun l v => match v with
+      | .obj "PortStatus" [h, .num r, .bytes pad, d] => do
+        let h := Header.setLength l h
+        let hb ← Header.bytes h
+        let (db, d) ← PhyPort.marshalM d
+        .ok (hb ++ ([n8 r] ++ makeCopy 7 pad) ++ db, .obj "PortStatus" [h, .num r, .bytes pad, d])
+      | _ => .panic)
+  · intro v; rfl
+  · intro v; exact (hlp v).idem
+  · intro l v1 bs v2 hl hE
+    split at hE
+    · rename_i h r pad d
+      obtain ⟨hb, hhb, h3⟩ := bind_ok_inv _ _ _ hE
+      obtain ⟨⟨db, d'⟩, hd, h4⟩ := bind_ok_inv _ _ _ h3
+      have e := PhyPort.marshalM_pure _ _ _ hd
+      subst e
+      cases h4
+      have hl2 : PortStatus.lenM (.obj "PortStatus" [Header.setLength l h, .num r, .bytes pad, d']) =
+          .ok (l, .obj "PortStatus" [Header.setLength l h, .num r, .bytes pad, d']) := by
+        simp only [PortStatus.lenM] at hl ⊢
+        obtain ⟨⟨lp, d2⟩, hd2, hl'⟩ := bind_ok_inv _ _ _ hl
+        simp only [Res.pure_eq, Res.ok.injEq, Prod.mk.injEq, V.obj.injEq, List.cons.injEq, true_and, and_true] at hl'
+        obtain ⟨e1, e2⟩ := hl'
+        subst e1; subst e2
+        simp only [hd2, Res.bind_ok, Res.pure_eq]
+      refine ⟨hl2, ?_⟩
+      simp only [Header.setLength_idem, hhb, hd, Res.bind_ok]
+    · exact absurd hE (by simp)
+
+/-- BundlePropertyExperimenter: MarshalBinary() stores `Length = 12 + len(data)` -/
+theorem bundleProperty_repeatable : ∀ v, Repeatable BundlePropertyExperimenter.lenM BundlePropertyExperimenter.marshalM v := by
+  intro v
+  have hlp : ∀ w, LenPure BundlePropertyExperimenter.lenM w := by
+    intro w l v1 h
+    unfold BundlePropertyExperimenter.lenM at h
+    obtain ⟨_, _, h'⟩ := bind_ok_inv _ _ _ h
+    exact (same_ok _ _ _ _ h').2
+  have shape : ∀ w bs v2, BundlePropertyExperimenter.marshalM w = .ok (bs, v2) →
+      ∃ t x ei et d l, w = .obj "BundlePropertyExperimenter" [.num t, x, .num ei, .num et, .bytes d] ∧
+        BundlePropertyExperimenter.len w = .ok l ∧
+        fill l.toNat [pU16 t, .put (be16 (n16 (12 + d.length))), pU32 ei, pU32 et, pCopy d] = .ok bs ∧
+        v2 = .obj "BundlePropertyExperimenter" [.num t, V.u16 (n16 (12 + d.length)), .num ei, .num et, .bytes d] := by
+    intro w bs v2 h
+    unfold BundlePropertyExperimenter.marshalM at h
+    split at h
+    · obtain ⟨l, hl, h2⟩ := bind_ok_inv _ _ _ h
+      obtain ⟨b, hf, h3⟩ := bind_ok_inv _ _ _ h2
+      cases h3
+      exact ⟨_, _, _, _, _, l, rfl, hl, hf, rfl⟩
+    · exact absurd h (by simp)
+  refine ⟨(hlp v).idem, ?_, ?_, ?_⟩
+  · intro bs v2 h2
+    obtain ⟨t, x, ei, et, d, l, rfl, hl, hf, rfl⟩ := shape v bs v2 h2
+    simp only [BundlePropertyExperimenter.len] at hl
+    cases hl
+    simp only [BundlePropertyExperimenter.marshalM, BundlePropertyExperimenter.len, V.u16, Res.bind_ok, hf]
+  · intro l v1 bs v2 h1 h2
+    obtain ⟨t, x, ei, et, d, l', rfl, hl, hf, rfl⟩ := shape v bs v2 h2
+    unfold BundlePropertyExperimenter.lenM at h1 ⊢
+    obtain ⟨l2, hl2, h1'⟩ := bind_ok_inv _ _ _ h1
+    obtain ⟨e1, _⟩ := same_ok _ _ _ _ h1'
+    subst e1
+    have hl' : BundlePropertyExperimenter.len (.obj "BundlePropertyExperimenter" [.num t, V.u16 (n16 (12 + d.length)), .num ei, .num et, .bytes d]) = .ok l := by
+      simpa only [BundlePropertyExperimenter.len] using hl2
+    simp only [hl', Res.bind_ok, same]
+  · intro l v1 bs v2 h1 h2
+    have := hlp v l v1 h1
+    subst this
+    exact h2
+
+
 end OFV.Props.C13
